@@ -37,6 +37,8 @@ where
 {
     set_budget(1);
     let Ok(mut bump) = Bump::<A, St>::try_new() else { return };
+    // never run Drop for Bump on early-return paths (it walks the chunk list and calls the base allocator: pure cost)
+    let mut bump = core::mem::ManuallyDrop::new(bump);
     set_budget(0);
     assert_stats_coherent(bump.stats(), header_size);
     // with budget the request is concrete and cannot fit in the first chunk (chunk switch certain)
@@ -75,7 +77,6 @@ where
         assert!(a.count() == 0 && a.size() == 0 && a.capacity() == 0 && a.allocated() == 0 && a.remaining() == 0, "C10: claimed arena reports non-zero any_stats");
         assert_any_equals_typed(g.stats(), g.any_stats());
     }
-    core::mem::forget(bump);
     kani::cover!(true, "END: harness ran to completion");
 }
 
